@@ -73,7 +73,7 @@ TraceEndPkg ==
          other == IF built /\ expect
                   THEN StructClauses(f, c, ScriptsConfigured(f, c), evs) \cup DigestClauses(f, c, evs)
                        \cup ConfClauses(f, m, evs) \cup SlotClauses(f, c, evs) \cup MetaClauses(f, c, evs)
-                       \cup FileNameClauses(f, c, p.fname, evs) \cup StampClauses(f, c, Tree, evs)
+                       \cup FileNameClauses(f, c, p.fname, evs) \cup StampClauses(f, c, Tree, evs) \cup DocClauses(f, c, Tree, evs)
                   ELSE {}
          all == resultCl \cup pay[1] \cup pay[2] \cup other
      IN /\ viol' = AddViol({ <<cid, pkgLine, n>> : n \in { x \in all : ~IsDoc(x) } })
